@@ -27,18 +27,7 @@ def table_for(keys, offset=0):
 
 
 def abbreviate(ast, rng, max_packages=3, names=PKG_NAMES):
-    """replace up to max_packages sub-expressions by packages (names taken from `names`) whose expression is that sub-expression"""
-    table = {}
-    for name in rng.sample(list(names), rng.randint(0, min(max_packages, len(names)))):
-        candidates = [p for p in G.paths(ast) if G.get_at(ast, p)[0] != "pkg" and not any(G.get_at(ast, p[:i])[0] == "then" for i in range(len(p) + 1))]
-        candidates = [p for p in candidates if not any(leaf[0] == "pkg" for leaf in G.leaves(G.get_at(ast, p)))]
-        if not candidates:
-            break
-        path = rng.choice(candidates)
-        node = G.get_at(ast, path)
-        table[name] = G.render(node, rng, EXACT)
-        ast = G.replace_at(ast, path, ["pkg", name, rng.choice([None, None, "0..1"])])
-    return ast, table
+    return G.abbreviate(ast, rng, names, max_packages, EXACT)
 
 
 def summarise(outcome):
